@@ -145,3 +145,18 @@ Definition create_world (k : fkind) (self : addr) (p : gparams) (now : N) (sende
   do c <- create_minter k self p now sender funds r new_minter;
   do b2 <- apply_bmsgs self b1 (cr_msgs c);
   Ok (c, b2).
+
+(* ---- a later UpdatePerAddressLimit on the created minter (vending: the handler model
+   MinterVending.step has the same rule, proved equal in FactoryProofs; token-merge and
+   open-edition minters: pure rules read from their handlers; the base minter has no such
+   message) ---- *)
+Definition update_pal (k : fkind) (flex : bool) (is_admin no_funds : bool) (l n maxpal : N) : result N :=
+  if negb no_funds then Err
+  else if negb is_admin then Err
+  else if (l =? 0) || (maxpal <? l) then Err
+  else match k with
+       | FVending => if negb flex && negb (check_dynamic_pal l n maxpal) then Err else Ok l
+       | FTokenMerge => if negb (check_dynamic_pal l n maxpal) then Err else Ok l
+       | FOpen => Ok l
+       | FBase => Err
+       end.
